@@ -133,8 +133,59 @@ func (c *wrappedEOFScanner) ReadRune() (rune, int, error) {
 	return r, w, err
 }
 
+// errorList is an error whose dynamic type cannot be compared with ==.
+type errorList []string
+
+func (e errorList) Error() string { return strings.Join(e, "; ") }
+
+// failingReader delivers the first half of the text and then fails with an
+// error list.
+type failingReader struct {
+	r    *strings.Reader
+	left int
+}
+
+func (f *failingReader) Read(p []byte) (int, error) {
+	if f.left <= 0 {
+		return 0, errorList{"disk", "gone"}
+	}
+	if len(p) > f.left {
+		p = p[:f.left]
+	}
+	n, err := f.r.Read(p)
+	f.left -= n
+	return n, err
+}
+
+// failingScanner is the same as an io.RuneScanner (it fails after two thirds).
+type failingScanner struct {
+	runeScanner
+	left int
+}
+
+func (c *failingScanner) ReadRune() (rune, int, error) {
+	if c.left <= 0 {
+		c.last = 0
+		return 0, 0, errorList{"disk", "gone"}
+	}
+	c.left--
+	return c.runeScanner.ReadRune()
+}
+
+func (c *failingScanner) UnreadRune() error {
+	if err := c.runeScanner.UnreadRune(); err != nil {
+		return err
+	}
+	c.left++
+	return nil
+}
+
 func source(kind, s string) interface{} {
 	switch kind {
+	case "errorlist-reader":
+		return &failingReader{r: strings.NewReader(s), left: len(s) / 2}
+	case "errorlist-scanner":
+		return &failingScanner{runeScanner: runeScanner{s: s}, left: utf8.RuneCountInString(s) * 2 / 3}
 	case "wrapped-eof-reader":
 		return wrappedEOFReader{strings.NewReader(s)}
 	case "wrapped-eof-scanner":
